@@ -97,12 +97,13 @@ CLAIMS = {
     },
     "C04": {
         "text": "Machine-checked Lean theorems generic in the cost type: unigram_walk (structure of every encoding, all fallbacks, no cost "
-                "laws) and viterbi_optimal_partial (minimal cost among all segmentations inside BoundedCost). The unrestricted optimality "
-                "statement is false of the code (restart value 1e6): kept as known finding F13 with a Lean counterexample. Model tied to "
+                "laws) and viterbi_optimal (for every vocabulary, scores of either sign, every segmentable piece: the result is a "
+                "segmentation of minimal cost - no bound on costs). The code had to be repaired for this to be true (F13, restart value "
+                "1e6; fix commit 8176aef); the pre-repair statement viterbi_optimal_partial and its counterexample are kept. Model tied to "
                 "src/encoder/unigram.rs by differential runs judged by an independent dynamic program.",
-        "design_ref": "DESIGN.md §6 C04, §7 F13",
-        "note": "Partial: optimality only inside BoundedCost (all shipped models and all generated cases lie inside it; the committed "
-                "corpus witness lies outside and is reported as KNOWN-FINDING). Float cost laws are an IEEE-754 assumption.",
+        "design_ref": "DESIGN.md §6 C04, §7 F13, §10.4",
+        "note": "Float cost laws (monotone subtraction, total preorder without NaN) are an IEEE-754 assumption: the theorems are proved "
+                "for every lawful cost type and instantiated with Int in examples; Float is used only in the driver.",
         "technique": "Lean 4 proof over executable model + differential correspondence with the Rust implementation",
     },
     "C05": {
